@@ -99,6 +99,13 @@ Theorem C18_one_winner : forall print f flag pkg rest,
 Proof. exact init_all_one_winner. Qed.
 Print Assumptions C18_one_winner.
 
+(* The invoking shell's environment is not an input: the outcome and the written file are the
+   same under every environment (so the file states the built-in defaults, not MOCKERY_* values). *)
+Theorem C18_environment_independent : forall print env1 env2 f flag pkg,
+  init_in print env1 f flag pkg = init_in print env2 f flag pkg.
+Proof. reflexivity. Qed.
+Print Assumptions C18_environment_independent.
+
 (* Non-vacuity: a clean directory; a package path full of YAML-significant characters passes
    the guard, init succeeds, a second init fails and changes nothing. *)
 Example C18_example :
